@@ -204,7 +204,10 @@ Spec == Init /\ [][Next]_vars
 
 \* ---- invariants of the design evaluated on every prefix of every observed execution -------------------------
 FinalitySafety == \A n, m \in Nodes : SameChain(fin[n], fin[m])
-BestExtendsFin == \A n \in Nodes : IsAnc(fin[n], best[n])
+\* (runs in which the driver makes honest nodes pack on a parent the schedule names, not on their best block
+\* (cfg.forced: vote orders replayed from BFTEpoch.tla), can finalize on one branch while the best block still sits on
+\* another of equal quality and higher score: the invariant is about nodes that pack on their best block)
+BestExtendsFin == ("forced" \in DOMAIN cfg /\ cfg.forced) \/ \A n \in Nodes : IsAnc(fin[n], best[n])
 FinIsCheckpoint == \A n \in Nodes : B[fin[n]].num = CP(B[fin[n]].num)
 OrderIndependence == \A n, m \in Nodes : seen[n] = seen[m] => best[n] = best[m] /\ fin[n] = fin[m]
 
